@@ -5,7 +5,8 @@ import os, sys, gc, struct
 from sim import core, build, hist
 from sim.core import Outcome, PRNG, HarnessError, digest_of
 
-CDEF = "struct sb { short a; signed char b; };"
+CDEF = ("struct sb { short a; signed char b; }; struct s3 { signed char a, b, c; };"
+        " struct s6 { short a, b, c; };")
 KINDS = {
     # name: (C type, struct fmt or None, size, min, max)
     'i8': ('signed char', 'b', 1, -128, 127), 'u8': ('unsigned char', 'B', 1, 0, 255),
@@ -14,6 +15,8 @@ KINDS = {
     'i64': ('long long', 'q', 8, -2 ** 63, 2 ** 63 - 1), 'u64': ('unsigned long long', 'Q', 8, 0, 2 ** 64 - 1),
     'bool': ('_Bool', '?', 1, 0, 1), 'f32': ('float', 'f', 4, None, None), 'f64': ('double', 'd', 8, None, None),
     'ptr': ('char *', 'P', 8, 0, 2 ** 48), 'sb': ('struct sb', None, 4, None, None), 'char': ('char', 'c', 1, None, None),
+    # item sizes that are not a power of two
+    's3': ('struct s3', 'bbb', 3, None, None), 's6': ('struct s6', 'hhh', 6, None, None),
 }
 KNAMES = sorted(KINDS)
 
@@ -44,6 +47,8 @@ class Run(object):
         ctype, fmt, size, lo, hi = KINDS[kind]
         if kind == 'sb':
             return struct.pack('hb', v[0], v[1]) + b'\0'
+        if kind in ('s3', 's6'):
+            return struct.pack(fmt, *v)
         if kind == 'char':
             return v
         if kind == 'bool':
@@ -55,6 +60,10 @@ class Run(object):
         ctype, fmt, size, lo, hi = KINDS[kind]
         if kind == 'sb':
             return (r % 60000 - 30000, r % 200 - 100)
+        if kind == 's3':
+            return (r % 200 - 100, r // 7 % 200 - 100, r // 49 % 200 - 100)
+        if kind == 's6':
+            return (r % 60000 - 30000, r // 7 % 60000 - 30000, r // 49 % 60000 - 30000)
         if kind == 'char':
             return bytes([r % 256])
         if kind in ('f32', 'f64'):
@@ -69,6 +78,8 @@ class Run(object):
         """Python object to assign"""
         if kind == 'sb':
             return {'a': v[0], 'b': v[1]}
+        if kind in ('s3', 's6'):
+            return {'a': v[0], 'b': v[1], 'c': v[2]}
         if kind == 'ptr':
             return self.ffi.cast('char *', v)
         return v
@@ -76,6 +87,8 @@ class Run(object):
     def from_c(self, kind, x):
         if kind == 'sb':
             return (x.a, x.b)
+        if kind in ('s3', 's6'):
+            return (x.a, x.b, x.c)
         if kind == 'ptr':
             return int(self.ffi.cast('uintptr_t', x))
         if kind == 'bool':
@@ -84,7 +97,7 @@ class Run(object):
 
     def bad_value(self, kind, r):
         ctype, fmt, size, lo, hi = KINDS[kind]
-        if kind in ('sb',):
+        if kind in ('sb', 's3', 's6'):
             return 'notastruct'
         if kind in ('f32', 'f64', 'char'):
             return [1, 2]           # wrong type
@@ -176,6 +189,8 @@ class Run(object):
     def decode(self, kind, raw):
         if kind == 'sb':
             return struct.unpack('hb', raw[:3])
+        if kind in ('s3', 's6'):
+            return struct.unpack(KINDS[kind][1], raw)
         if kind == 'char':
             return raw
         if kind == 'bool':
@@ -294,7 +309,7 @@ class Run(object):
         used = 'list'
         if src == 'cdata' and fault == 'none':
             used = 'cdata'
-            if kind == 'sb':
+            if kind in ('sb', 's3', 's6'):
                 tmp = self.ffi.new('%s[%d]' % (KINDS[kind][0], cnt), [self.to_c(kind, x) for x in vals])
             else:
                 tmp = self.ffi.new('%s[%d]' % (KINDS[kind][0], cnt), items)
@@ -493,7 +508,7 @@ class C16(core.Check):
     chunk = 500
     crash_clause = 'C16.1'
     env = {'MALLOC_PERTURB_': '221', 'PYTHONMALLOC': 'malloc'}
-    rule = ('one run = a seeded history of up to 50 operations over arrays of 14 element kinds and lengths 0-8 and '
+    rule = ('one run = a seeded history of up to 50 operations over arrays of 16 element kinds (item sizes 1,2,3,4,6,8) and lengths 0-8 and '
             'views of them (index read/write with in-range, negative, ==n, too-large and huge indices; slices with '
             'every bound class and steps; slice assignment from list/tuple/generator/cdata/bytes with right and '
             'wrong counts and with the k-th item unconvertible or the iterator raising at item k; pointer '
